@@ -48,6 +48,7 @@ class G:
         self.nkey = 0
         self.nalias = 0
         self.avoided = 0
+        self.focus = None  # "window": the next top-level select is a single-source one with a framed window function
 
     def d(self, s):
         return self.draw(s)
@@ -143,16 +144,15 @@ class G:
         return ["gt", self.ne(scope, 1), self.const()]
 
     def agg(self, scope):
-        c = self.d(st.integers(0, 7))
+        # DISTINCT and FILTER are independent options (a seeded change lost FILTER only when DISTINCT was set)
+        c = self.d(st.integers(0, 9))
         x = self.ne(scope, 1)
+        flt = self.be(scope, 1, allow_sub=False) if self.d(st.integers(0, 2)) == 0 else None
         if c == 0:
-            return ["agg", "COUNT", None, False, None]
-        if c == 1:
-            return ["agg", "COUNT", x, True, None]
-        if c == 2:
-            return ["agg", "SUM", x, False, self.be(scope, 1, allow_sub=False)]
-        name = self.d(st.sampled_from(["SUM", "COUNT", "MIN", "MAX", "AVG"]))
-        return ["agg", name, x, name in ("SUM", "COUNT") and self.d(st.integers(0, 4)) == 0, None]
+            return ["agg", "COUNT", None, False, flt]
+        name = self.d(st.sampled_from(["SUM", "COUNT", "MIN", "MAX", "AVG", "COUNT", "SUM"]))
+        distinct = name in ("SUM", "COUNT") and self.d(st.integers(0, 2)) == 0
+        return ["agg", name, x, distinct, flt]
 
     def table_src(self, names=("t1", "t2", "t3"), force_alias=False):
         t = self.d(st.sampled_from(names))
@@ -167,10 +167,13 @@ class G:
     def select(self, depth=1, ncols=None, want_int=False, all_aliased=False, allow_setop=True, first_int=False):
         sources = []
         used_names = set()
+        focus, self.focus = self.focus, None
+        if focus == "window":
+            allow_setop = False
         want_setop = allow_setop and depth > 0 and not want_int and self.d(st.integers(0, 4)) == 0
         if want_setop:
             all_aliased = True  # a compound ORDER BY can only name result columns
-        if depth > 0 and self.d(st.integers(0, 5)) == 0:
+        if depth > 0 and focus != "window" and self.d(st.integers(0, 5)) == 0:
             sub = self.select(depth=depth - 1, all_aliased=True, allow_setop=False, first_int=True)
             src = {"key": self.key(), "sub": sub, "alias": self.alias("q")}
         else:
@@ -178,7 +181,7 @@ class G:
         sources.append(src)
         used_names.add(src.get("alias") or src.get("table"))
         joins = []
-        for _ in range(self.d(st.sampled_from([0, 0, 1, 1, 2]))):
+        for _ in range(self.d(st.sampled_from([0, 0, 1, 1, 2])) if focus != "window" else 0):
             js = self.table_src()
             nm = js["alias"] or js["table"]
             if nm in used_names:
@@ -203,7 +206,9 @@ class G:
             joins.append(j)
         all_src = sources + [j["src"] for j in joins]
         scope = [(s["key"], self.cols_of(s)) for s in all_src]
-        grouped = self.d(st.integers(0, 3)) == 0 and not want_int
+        gmode = self.d(st.integers(0, 7)) if focus != "window" else 7
+        grouped = gmode in (0, 1) and not want_int
+        aggonly = gmode == 2 and not want_int  # aggregates over the whole input: no GROUP BY, HAVING still allowed
         n = ncols or self.d(st.integers(1, 3))
         items = []
         group = []
@@ -218,6 +223,11 @@ class G:
                 items.append({"e": self.agg(scope), "alias": self.alias() if all_aliased or self.d(st.booleans()) else None, "type": "int"})
             if self.d(st.booleans()):
                 having = [self.d(st.sampled_from(["gt", "le"])), self.agg(scope), self.const()]
+        elif aggonly:
+            for _ in range(n):
+                items.append({"e": self.agg(scope), "alias": self.alias() if all_aliased or self.d(st.booleans()) else None, "type": "int"})
+            if self.d(st.booleans()):
+                having = [self.d(st.sampled_from(["gt", "le", "ge", "lt"])), self.agg(scope), self.const()]
         else:
             for i in range(n):
                 if want_int or (first_int and i == 0) or self.d(st.integers(0, 3)) > 0:
@@ -229,18 +239,28 @@ class G:
                     # a bare literal in ORDER BY would be read by SQLite as a column position - not a builder question
                     e, ty = self.icol(scope), "int"
                 items.append({"e": e, "alias": self.alias() if all_aliased or self.d(st.booleans()) else None, "type": ty})
-            if self.d(st.integers(0, 7)) == 0 and not want_int and not want_setop and "table" in sources[0]:
+            if (focus == "window" or self.d(st.integers(0, 7)) < 2) and not want_int and not want_setop and "table" in sources[0]:
                 part = self.icol(scope)
                 pk = ["col", sources[0]["key"], TABLES[sources[0]["table"]][0]]
-                wname = self.d(st.sampled_from(["ROW_NUMBER", "RANK", "SUM", "MAX"]))
+                wname = self.d(st.sampled_from(["ROW_NUMBER", "RANK", "SUM", "MAX"] if focus != "window" else ["SUM", "MAX", "SUM"]))
                 warg = self.icol(scope) if wname in ("SUM", "MAX") else None
                 orders = [[self.icol(scope), self.d(st.sampled_from([None, "asc", "desc"]))]]
                 if not joins:
                     orders.append([pk, None])
+                frame = None
+                if not joins and wname in ("SUM", "MAX") and (focus == "window" or self.d(st.integers(0, 3)) > 0):
+                    # a frame only where the window order is total (pk appended above): ROWS with offsets, RANGE with the unbounded / current edges
+                    unit = self.d(st.sampled_from(["rows", "rows", "rows", "range"]))
+                    nn = st.sampled_from([0, 0, 1, 2, 3])
+                    lows = [["preceding", None], ["current"]] + ([["preceding", self.d(nn)]] if unit == "rows" else [])
+                    ups = [["following", None], ["current"]] + ([["following", self.d(nn)]] if unit == "rows" else [])
+                    lo = self.d(st.sampled_from(lows))
+                    up = self.d(st.sampled_from(ups + [None]))
+                    frame = [unit, lo, up]
                 if not joins or wname in ("RANK", "SUM", "MAX"):
-                    items.append({"e": ["win", wname, warg, [part] if self.d(st.booleans()) else [], orders], "alias": self.alias("w"), "type": "int"})
+                    items.append({"e": ["win", wname, warg, [part] if self.d(st.booleans()) else [], orders, frame], "alias": self.alias("w"), "type": "int"})
         where = self.be(scope, 2, allow_sub=depth > 0) if self.d(st.integers(0, 9)) < 6 else None
-        distinct = (not grouped) and self.d(st.integers(0, 5)) == 0 and not any(it["e"][0] == "win" for it in items)
+        distinct = (not grouped) and (not aggonly) and self.d(st.integers(0, 5)) == 0 and not any(it["e"][0] == "win" for it in items)
         order = []
         limit = offset = None
         if self.d(st.integers(0, 9)) < 4 or want_int and False:
@@ -344,6 +364,8 @@ def database(draw):
 @st.composite
 def case_st(draw):
     g = G(draw)
+    if draw(st.integers(0, 11)) == 0:
+        g.focus = "window"
     sa = g.select(depth=draw(st.sampled_from([0, 1, 1, 2]))) if draw(st.integers(0, 9)) < 6 else g.dml()
     dbs = [draw(database()) for _ in range(3)]
     return {"sa": sa, "dbs": dbs, "avoided": g.avoided}
@@ -399,11 +421,16 @@ def P_expr(e, left=False):
             node = ["call", node, "filter", [P_expr(flt, True)]]
         return node
     if k == "win":
-        _, name, arg, part, orders = e
+        name, arg, part, orders = e[1:5]
+        frame = e[5] if len(e) > 5 else None
         node = ["an", WIN[name], [P_expr(arg, True)] if arg is not None else []]
         node = ["call", node, "over", [P_expr(p, True) for p in part]]
         for oe, od in orders:
             node = ["call", node, "orderby", [P_expr(oe, True)], ({"order": ["enum", "Order", od]} if od else {})]
+        if frame:
+            def edge(b):
+                return ["currow"] if b[0] == "current" else ["edge", "Preceding" if b[0] == "preceding" else "Following", b[1]]
+            node = ["call", node, frame[0], [edge(frame[1])] + ([edge(frame[2])] if frame[2] else [])]
         return node
     raise HarnessError("P_expr %r" % (k,))
 
@@ -565,13 +592,20 @@ def R_expr(e, qual):
             s += " FILTER (WHERE %s)" % R_expr(flt, qual)
         return s
     if k == "win":
-        _, name, arg, part, orders = e
+        name, arg, part, orders = e[1:5]
+        frame = e[5] if len(e) > 5 else None
         s = "%s(%s) OVER (" % (name, R_expr(arg, qual) if arg is not None else "")
         parts = []
         if part:
             parts.append("PARTITION BY " + ", ".join(R_expr(p, qual) for p in part))
         if orders:
             parts.append("ORDER BY " + ", ".join(R_expr(oe, qual) + (" " + od.upper() if od else "") for oe, od in orders))
+        if frame:
+            def edge(b):
+                if b[0] == "current":
+                    return "CURRENT ROW"
+                return ("UNBOUNDED" if b[1] is None else "%d" % b[1]) + " " + b[0].upper()
+            parts.append(frame[0].upper() + (" BETWEEN %s AND %s" % (edge(frame[1]), edge(frame[2])) if frame[2] else " " + edge(frame[1])))
         return s + " ".join(parts) + ")"
     raise HarnessError("R_expr %r" % (k,))
 
@@ -756,7 +790,7 @@ def check(case, stats=None):
             if not ordered:
                 ra, rb = sorted(ra, key=repr), sorted(rb, key=repr)
             if not rows_equal(ra, rb):
-                return [(mksig(sa["kind"], "rows_differ", "ordered" if ordered else "multiset"), "on %r: library %r -> %r ; reference %r -> %r" % (db, sql, b[1][:6], ref, a[1][:6]))], info
+                return [(mksig(sa["kind"], "rows_differ", "ordered" if ordered else "multiset", feature(sa)), "on %r: library %r -> %r ; reference %r -> %r" % (db, sql, b[1][:6], ref, a[1][:6]))], info
         else:
             before = {t: sorted(map(tuple, rows), key=repr) for t, rows in db.items()}
             if a[1] != before:
@@ -766,6 +800,32 @@ def check(case, stats=None):
     ea, eb = explain(ref), explain(sql)
     info["bytecode_equal"] = ea is not None and ea == eb
     return [], info
+
+
+def feature(sa):
+    """the most specific construct of a select (part of the rows_differ signature: one signature per kind of construct)"""
+    if sa["kind"] != "select":
+        return sa["kind"]
+    text = json.dumps(sa)
+    wins = [it["e"] for it in sa["items"] if it["e"][0] == "win"]
+    if any(len(w) > 5 and w[5] for w in wins):
+        return "window_frame"
+    if wins:
+        return "window"
+    if sa["having"] and not sa["group"]:
+        return "having_without_group"
+    if '"agg"' in text:
+        return "aggregate"
+    for f, name in (("setop", "setop"), ("group", "group")):
+        if sa[f]:
+            return name
+    if any("sub" in s_ for s_ in sa["sources"]):
+        return "from_subquery"
+    if '"insub"' in text:
+        return "in_subquery"
+    if sa["joins"]:
+        return "join"
+    return "plain"
 
 
 def clause_kinds(sa):
@@ -843,6 +903,13 @@ def run_shard(shard):
                     classes.append("has:" + f)
             if any("sub" in s for s in sa["sources"]):
                 classes.append("has:from_subquery")
+            aggs = [it["e"] for it in sa["items"] if it["e"][0] == "agg"] + ([sa["having"][1]] if sa["having"] and sa["having"][1][0] == "agg" else [])
+            if any(a[3] and a[4] is not None for a in aggs):
+                classes.append("has:agg_distinct_filter")
+            if sa["having"] and not sa["group"]:
+                classes.append("has:having_without_group")
+            if any(it["e"][0] == "win" and len(it["e"]) > 5 and it["e"][5] for it in sa["items"]):
+                classes.append("has:window_frame")
             if any(it["e"][0] == "win" for it in sa["items"]):
                 classes.append("has:window")
             if '"insub"' in json.dumps(sa):
